@@ -11,7 +11,7 @@ from vcommon import *
 PROP = "C12"
 HERE = os.path.dirname(os.path.abspath(__file__))
 TZS = ["UTC", "Asia/Tokyo", "America/Los_Angeles", "Pacific/Kiritimati", "XYZ-14", "ABC+11:30", "Europe/London"]
-KNOBS = ["clock", "tz", "mtime", "heap", "pid", "tmpname", "stack", "envvars", "cwd", "fds", "perm", "ids", "stdin", "links", "proc", "envfuzz", "preexist", "closefd"]
+KNOBS = ["clock", "tz", "mtime", "heap", "pid", "tmpname", "stack", "envvars", "cwd", "fds", "perm", "ids", "stdin", "links", "proc", "envfuzz", "preexist", "closefd", "stdout_kind"]
 TIMEOUT = 10
 TIME_MACROS = re.compile(r"__DATE__|__TIME__|__TIMESTAMP__")
 
@@ -74,6 +74,7 @@ def gen_env(r):
             "stack": r.pick([r.range(0, 4000), r.range(0, 120000), r.range(60000, 250000)]),   # bytes of environment: moves the stack by up to 250 KB
             "stdin": [r.pick(["pipe", "file", "file"]), r.pick([0, 0, 1, 17, 4096, 70000])],
             "proc": [r.below(2), r.pick([0o022, 0o077, 0, 0o777])],   # SIGPIPE inherited as ignored; umask
+            "stdout_kind": r.pick(["pipe", "pipe", "file", "null"]),   # what descriptor 1 is: a pipe, a regular file, the null device
             "closefd": r.pick([None, None, None, None, 2, 2, 0]),   # a standard descriptor that is closed when the compiler starts (cron- and daemon-style launchers)
             "envfuzz": r.range(1, 1 << 30),    # answers to getenv() calls of the compiler itself (none in the unchanged tree)
             # bytes of old content in the output and dependency files before the run; -1: what an earlier, slightly different build left there
@@ -473,13 +474,48 @@ def gen_abi_file(r):
     return "\n".join(out) + "\n"
 
 
+PREDEF_CACHE = {}
+
+
+def gen_predef_file(r, src):
+    """probes of every name the compiler's own sources mention in a string literal that could be a macro name (predefined
+    macros come from there): defined or not, what it expands to (-E), and the size of what it expands to (-S). The list is read
+    from the working tree, so a macro that a change adds is probed without anybody telling the harness."""
+    if src not in PREDEF_CACHE:
+        names = set()
+        for f in ("preprocess.c", "main.c"):
+            try:
+                t = open(os.path.join(src, f), errors="replace").read()
+            except OSError:
+                continue
+            names |= set(re.findall(r'"([A-Za-z_][A-Za-z0-9_]{2,40})"', t))
+        PREDEF_CACHE[src] = sorted(n for n in names if n.startswith("_") or n.isupper() or n in ("linux", "unix", "i386"))
+    names = PREDEF_CACHE[src]
+    if not names:
+        return "int main(void) { return 0; }\n"
+    pick = r.sample(names, min(len(names), r.pick([3, 8, 20, len(names)])))
+    out = ["long sink;"]
+    style = r.below(3)
+    for k, n in enumerate(pick):
+        out.append("#ifdef %s" % n)
+        if style == 0:
+            out.append('"%s" %s ;' % (n, n))                       # for -E: the expansion itself
+        elif style == 1:
+            out.append("void pf%d(void) { sink += sizeof(%s); }" % (k, n))   # for -S: the type of what it expands to
+        else:
+            out.append("#if (%s) < 0\nint neg%d;\n#elif (%s) > 0x7fffffff\nint big%d;\n#else\nint mid%d;\n#endif" % (n, k, n, k, k))  # the value, as #if sees it
+        out.append("#endif")
+    out.append("int main(void) { return 0; }")
+    return "\n".join(out) + "\n"
+
+
 def list_inputs(src):
     own = [os.path.join(src, f) for f in sorted(os.listdir(src)) if f.endswith(".c")]
     tests = [os.path.join(src, "test", f) for f in sorted(os.listdir(os.path.join(src, "test"))) if f.endswith(".c")]
     return own, tests
 
 
-OPTION_SETS = [["-xc-stdin", "-S"], ["-xc-stdin", "-E"], ["-xc-stdin", "-c"], ["-###"], ["-###", "-c"], [], ["-###", "-static"], ["-###", "-shared", "-fPIC"], ["-###", "-L.", "-lm", "-Wl,--as-needed,-z,now", "-Xlinker", "--no-undefined", "-s"],
+OPTION_SETS = [["-S", "-o-stdout"], ["-S", "-o-stdout", "-fPIC"], ["-E", "-o-stdout"], ["-xc-stdin", "-S"], ["-xc-stdin", "-E"], ["-xc-stdin", "-c"], ["-###"], ["-###", "-c"], [], ["-###", "-static"], ["-###", "-shared", "-fPIC"], ["-###", "-L.", "-lm", "-Wl,--as-needed,-z,now", "-Xlinker", "--no-undefined", "-s"],
                ["-###", "-S", "-xc", "-idirafter", "test", "-I.", "-include", "stdbool.h"],
                ["-M", "-MT", "foo bar$x.o"], ["-MD", "-MP", "-MT", "a#b", "-S"], ["-MMD", "-c"], ["-M", "-MP"], ["-M", "-MQ", "x y$.o"], ["-MD", "-MT", "t1", "-MT", "t2", "-E"],
                ["-E", "-xc"], ["-S", "-x", "c"], ["-E", "-DX=a=b", "-DY=", "-UX", "-D", "Z(a,b)=a##b"], ["-S", "-idirafter", "test", "-fno-common"],
@@ -490,10 +526,13 @@ OPTION_SETS = [["-xc-stdin", "-S"], ["-xc-stdin", "-E"], ["-xc-stdin", "-c"], ["
 
 def gen_case(seed, src, own, tests, avail=None):
     r = Rng(seed)
-    x = r.below(36)
+    x = r.below(37)
     gen_text = None
     aux = None
-    if x >= 34:
+    if x >= 36:
+        path, mutated = tests[0], False
+        gen_text = gen_predef_file(r, src)
+    elif x >= 34:
         path, mutated = tests[0], False
         gen_text = gen_abi_file(r)
     elif x >= 32:
@@ -665,7 +704,10 @@ def run_replica(sdir, reps, stage, e, infile, opts, src, wdir, stats, timeout=No
     from_stdin = "-xc-stdin" in opts
     opts = [o for o in opts if o != "-xc-stdin"]
     argv = ["setarch", "x86_64", "-R", "./chibicc"] + opts + ["-I" + os.path.join(src, "test"), "-I" + os.path.dirname(infile)] + (["-xc", "-"] if from_stdin else [infile])
-    if "-E" not in opts and "-M" not in opts:
+    to_stdout = "-o-stdout" in opts
+    if to_stdout:
+        argv = [a for a in argv if a != "-o-stdout"] + ["-o", "-"]     # the output itself goes to descriptor 1
+    elif "-E" not in opts and "-M" not in opts:
         argv += ["-o", out]
     if "-MD" in opts:
         argv += ["-MF", dep]
@@ -722,7 +764,10 @@ def run_replica(sdir, reps, stage, e, infile, opts, src, wdir, stats, timeout=No
                     s.add(os.path.relpath(os.path.join(root, x), d))
         return s    # (/tmp is shared with the other workers: what is left there is C14's business, and C14 has a private one)
     files_before = listing()
-    po = subprocess.Popen(argv, cwd=wdir, env=env_vars(e, sdir, stats), stdin=stdin_arg, stdout=subprocess.PIPE, stderr=subprocess.PIPE,
+    sk = e.get("stdout_kind", "pipe")
+    so_path = os.path.join(real_wdir, "stdout.cap")
+    so_arg = subprocess.PIPE if sk == "pipe" else (open(so_path, "wb") if sk == "file" else open(os.devnull, "wb"))
+    po = subprocess.Popen(argv, cwd=wdir, env=env_vars(e, sdir, stats), stdin=stdin_arg, stdout=so_arg, stderr=subprocess.PIPE,
                           start_new_session=True, pass_fds=extra_fds, preexec_fn=_child_setup(e, bigstack, from_stdin))
     if isinstance(stdin_arg, int) and stdin_arg >= 0 and from_stdin:
         os.close(stdin_arg)
@@ -742,11 +787,14 @@ def run_replica(sdir, reps, stage, e, infile, opts, src, wdir, stats, timeout=No
     class P:
         pass
     p = P()
+    if sk != "pipe":
+        so_arg.close()
+        so = open(so_path, "rb").read() if sk == "file" else None   # (what went to the null device is gone: not compared)
     p.returncode, p.stdout, p.stderr = po.returncode, so, se
     # the assembler names its input, a temporary with a random name, in its own messages: not compiler output
     err = re.sub(rb"/tmp/chibicc-[A-Za-z0-9]{6}", b"/tmp/chibicc-TEMP", p.stderr)
     # files that came into being next to the input or in the working directory, other than the requested ones
-    newf = sorted(x for x in listing() - files_before if os.path.basename(x) not in ("out.bin", "out.d", "stats", "stdin.bin") and not x.endswith(".hardlink"))
+    newf = sorted(x for x in listing() - files_before if os.path.basename(x) not in ("out.bin", "out.d", "stats", "stdin.bin", "stdout.cap") and not x.endswith(".hardlink"))
     for x in newf:      # (and they go away again, so that the next run starts from the same directory)
         for d in (run_dir, os.path.dirname(infile)):
             q = os.path.join(d, x)
@@ -807,6 +855,8 @@ def evaluate(case, sdir, reps, src, wdir, stats=None):
         d = diff_fields(x, y)
         if case["e1"].get("closefd") != case["e2"].get("closefd") and 2 in (case["e1"].get("closefd"), case["e2"].get("closefd")):
             d = [k for k in d if k != "stderr"]     # with descriptor 2 closed the diagnostics are lost, legitimately; everything else must not care
+        if x["stdout"] is None or y["stdout"] is None:
+            d = [k for k in d if k != "stdout"]     # likewise what was sent to the null device
         return d
     d = fields(ra, rb)
     if d and any(x["status"] == 1 and not x["stderr"] and x["out"] is None for x in (ra, rb)):
@@ -997,6 +1047,7 @@ def fixpoint(sdir, reps, src, rep, stats):
         outs = {}
         for stage in sorted(reps):
             e = gen_env(r)
+            e["stdout_kind"], e["closefd"] = "pipe", None     # (every stream is kept and compared here)
             res = run_replica(sdir, reps, stage, e, f, ["-S"], src, wdir, None)
             outs[stage] = res
             n += 1
